@@ -3,10 +3,11 @@
 # Confirms a seeded mutant (suite passes, demo fails with / passes without),
 # stores it under /verif/seeded/<PROP>-m<k>/ and runs the check(s) against it.
 set -u
+VROOT=${VROOT:-$(cd "$(dirname "$0")/.." && pwd)}
 PROP=$1; WT=$2; K=$3; shift 3
 CHECKS="$PROP $*"
 export GOFLAGS=-mod=mod GOPROXY=off GOSUMDB=off GOTOOLCHAIN=local
-D=/verif/seeded/$PROP-m$K
+D=$VROOT/seeded/$PROP-m$K
 mkdir -p $D
 cp $WT/mut$K.diff $D/patch.diff
 cp $WT/mut${K}_demo_test.go.txt $D/demo_test.go.txt
@@ -30,23 +31,27 @@ rm -f $dir/zz_demo_test.go
 echo "confirm: suite-with-mutant=$res_suite demo-with-mutant=$res_with demo-on-clean=$res_without"
 detected=""
 if [ "$res_suite" = PASS ] && [ "$res_with" = FAIL ] && [ "$res_without" = PASS ]; then
-  cd /repo && git apply $D/patch.diff || { echo "cannot apply to /repo"; exit 3; }
+  # TARGET: the tree the change is applied to for the checks: /repo itself (default), or a
+  # scratch worktree of /repo given as SEED_TARGET (then the checks run with VERIF_REPO)
+  TARGET=${SEED_TARGET:-/repo}
+  [ "$TARGET" = /repo ] || export VERIF_REPO=$TARGET
+  cd $TARGET && git apply $D/patch.diff || { echo "cannot apply to $TARGET"; exit 3; }
   for c in $CHECKS; do
-    cd /verif && timeout 3000 ./check $c quick > /tmp/seed_check_$c.log 2>&1; rc=$?
+    cd $VROOT && timeout 3000 ./check $c quick > /tmp/seed_check_$c.log 2>&1; rc=$?
     nv=$(grep -c '^VIOLATION' /tmp/seed_check_$c.log)
     echo "check $c: exit=$rc violations=$nv"
     grep -m3 'counterexample' /tmp/seed_check_$c.log | cut -c1-300
     if [ $rc -eq 1 ] && [ $nv -gt 0 ]; then detected="$detected $c"; fi
   done
-  git -C /repo checkout -- .
-  git -C /repo status --short | head -3
+  git -C $TARGET checkout -- .
+  git -C $TARGET status --short | head -3
 fi
 python3 - <<PY
 import json
 json.dump({"property":"$PROP","mutant":$K,"suite_passes_with_mutant":"$res_suite"=="PASS","demo_fails_with_mutant":"$res_with"=="FAIL","demo_passes_on_clean_tree":"$res_without"=="PASS",
  "needs": open("$D/meta.txt").read() if __import__('os').path.exists("$D/meta.txt") else "",
  "checks_run":"$CHECKS".split(),"detected_by":"$detected".split(),
- "ran":"git apply patch.diff in a scratch worktree; go test -vet=off -count=1 ./... ; demo test with and without the patch; then git -C /repo apply, ./check <id> quick, git -C /repo checkout -- ."},
+ "ran":"git apply patch.diff in a scratch worktree; go test -vet=off -count=1 ./... ; demo test with and without the patch; then git apply to ${SEED_TARGET:-/repo} (/repo or a scratch worktree of it selected with VERIF_REPO), ./check <id> quick, git checkout -- ."},
  open("$D/meta.json","w"),indent=1)
 PY
 echo "stored in $D (detected by:$detected)"
